@@ -42,8 +42,8 @@ func (p Params) Validate() error {
 		return fmt.Errorf("fee must be positive and less than 1: %s", p.Fee.String())
 	}
 
-	if !p.PoolCreationFee.IsPositive() {
-		return fmt.Errorf("poolCreationFee must be positive: %s", p.PoolCreationFee.String())
+	if !p.PoolCreationFee.IsValid() || !p.PoolCreationFee.IsPositive() {
+		return fmt.Errorf("poolCreationFee must be a valid positive coin: %s", p.PoolCreationFee.String())
 	}
 
 	if !p.TaxRate.GT(math.LegacyZeroDec()) || !p.TaxRate.LT(math.LegacyOneDec()) {
@@ -75,8 +75,8 @@ func validatePoolCreationFee(i interface{}) error {
 		return fmt.Errorf("invalid parameter type: %T", i)
 	}
 
-	if !v.IsPositive() {
-		return fmt.Errorf("poolCreationFee must be positive: %s", v.String())
+	if !v.IsValid() || !v.IsPositive() {
+		return fmt.Errorf("poolCreationFee must be a valid positive coin: %s", v.String())
 	}
 	return nil
 }
